@@ -517,6 +517,12 @@ func (c *SpecCtx) ident(name string) SV {
 			return SV{V: c.st.Cells[cell], T: cell.Typ}
 		}
 	}
+	// the hidden counter of a map range statement that has not started on this path
+	if c.fr != nil && strings.HasPrefix(name, "mapiter") {
+		if _, err := strconv.Atoi(strings.TrimPrefix(name, "mapiter")); err == nil {
+			return SV{V: IntLit(0), T: types.Typ[types.Int]}
+		}
+	}
 	// a local of this function that has not been declared on this path: its zero value
 	if c.fr != nil {
 		for _, b := range c.fr.Fn.Blocks {
@@ -660,7 +666,7 @@ func (c *SpecCtx) call(n *ast.CallExpr) SV {
 		case T:
 			if v.T != nil {
 				if _, ok := v.T.Underlying().(*types.Map); ok {
-					return SV{V: e.mapLen(c.st, e.mapLayout(v.T), x)}
+					return SV{V: Ite(Eq(x, NilOf(SRef)), IntLit(0), e.mapLen(c.st, e.mapLayout(v.T), x)), T: types.Typ[types.Int]} // a nil map is empty
 				}
 			}
 		}
